@@ -707,13 +707,15 @@ pub fn check(ctx: &Ctx) -> Check {
         }),
         Box::new(EnumPart {
             name: "cli-reader-edge-bytes",
-            rule: "valid numpy files of every supported dtype and byte order (three elements, header padded to 64 or to 16 bytes) whose data section begins and ends with one of the bytes 0x00, 0x09, 0x0a, 0x0b, 0x0c, 0x0d, 0x20, 0x23, 0x85, 0xa0, 0xff (blanks, line ends, the text format's `#`), given to `sfs view` by path and on stdin: accepted, converted to '<f8' bit-exactly (strict validator on the output) and printed at 17 decimals with the values numpy's float64 conversion gives -- whatever the binary does to its input before handing it to the npy reader (sniffing, trimming) must leave a binary file alone",
+            rule: "valid numpy files of every supported dtype and byte order (three elements, header padded to 64 or to 16 bytes) whose data section begins and ends with one of the bytes 0x00, 0x09, 0x0a, 0x0b, 0x0c, 0x0d, 0x20, 0x23, 0x85, 0xa0, 0xff (blanks, line ends, the text format's `#`; thorough: every byte value), given to `sfs view` by path and on stdin: accepted, converted to '<f8' bit-exactly (strict validator on the output) and printed at 17 decimals with the values numpy's float64 conversion gives -- whatever the binary does to its input before handing it to the npy reader (sniffing, trimming) must leave a binary file alone",
             exhaustive: true,
-            cases: Box::new(|_| {
+            cases: Box::new(|ctx: &Ctx| {
                 let mut v = Vec::new();
+                // thorough: every byte value
+                let edges: Vec<u8> = if ctx.tier == crate::engine::Tier::Thorough { (0..=255u8).collect() } else { vec![0x00u8, 0x09, 0x0a, 0x0b, 0x0c, 0x0d, 0x20, 0x23, 0x85, 0xa0, 0xff] };
                 for dtype in ALL_DTYPES {
                     for order in [Order::Little, Order::Big] {
-                        for (k, edge) in [0x00u8, 0x09, 0x0a, 0x0b, 0x0c, 0x0d, 0x20, 0x23, 0x85, 0xa0, 0xff].into_iter().enumerate() {
+                        for (k, edge) in edges.iter().copied().enumerate() {
                             v.push(CliReaderCase { dtype, order, edge, align16: k % 2 == 0, stdin: (k / 2) % 2 == 0 });
                             if matches!(edge, 0x0a | 0x20) {
                                 v.push(CliReaderCase { dtype, order, edge, align16: k % 2 != 0, stdin: (k / 2) % 2 != 0 });
